@@ -281,6 +281,7 @@ def cases(draw, avoid: frozenset = frozenset(), on_excluded=None, max_mods: int 
             avoid=frozenset(G.KNOWN_STEERING),
             wild_plain_only=True,
             strict_taint=True,
+            self_names=True,
             deco_defs=True,
         )
     )
@@ -348,12 +349,17 @@ def cases(draw, avoid: frozenset = frozenset(), on_excluded=None, max_mods: int 
                     groups: dict = {}
                     for c in cands:
                         groups.setdefault(cat(c), []).append(c)
+                    # names equal to this module's own name / its parent package's name, bound at module level
+                    own_names = {G.base_name(mod["path"]), G.base_name(G.parent_path(mod["path"]) or "")} - {""}
+                    selfnamed = [c for c in cands if c[0] in own_names and c[1] is not None and c[1][0] == "module"]
                     order = draw(st.sampled_from((
                         ("imported", "local", "builtin", "unknown"), ("imported", "local", "builtin", "unknown"),
                         ("local", "imported", "builtin", "unknown"), ("local", "imported", "builtin", "unknown"),
                         ("builtin", "local", "imported", "unknown"), ("unknown", "imported", "local", "builtin"),
                     )))
                     pool = next(groups[g] for g in order if g in groups)
+                    if selfnamed and draw(st.integers(0, 2)) == 0:
+                        pool = selfnamed
                     if want is not None:
                         # kind-restricted sites (bases, decorators): candidates of that kind, else ones a chain can start at
                         def rk(c):
@@ -404,6 +410,8 @@ def cases(draw, avoid: frozenset = frozenset(), on_excluded=None, max_mods: int 
                             feats.append("import-as" if stmt.get("as") else "import-dotted")
                         if info.get("depth", 0) >= 2:
                             feats.append("re-export-chain")
+                    if n in own_names and py is not None and py[0] == "module":
+                        feats.append("module-own-name" if n == G.base_name(mod["path"]) else "parent-package-name")
                     if n == "$TOP":
                         # `<top>.a.b...`: go to the module imported by the `import <top>.a.b` statement that bound it,
                         # provided it lies in another branch of the tree (see _extend_chain)
